@@ -287,8 +287,12 @@ def check_grammar(rep, wf, cls):
                     origin |= set(dests(wf.actual[p_]))
                 want_t = 'ties1' if role == 'PREFS1' else 'ties2'
                 other_t = 'ties2' if role == 'PREFS1' else 'ties1'
-                rep.check(want_t in origin and other_t not in origin, 'C08.R6', w, '%s preference lists are tied with probability %s' % (name, want_t), got=sorted(origin), want=want_t,
-                          construct='%s %s tie source %s' % (cls, name, sorted(o for o in origin if o.startswith('ties'))))
+                if not any(o.startswith('ties') for o in origin):
+                    # the tie vector could not be traced back to an option at all (an opaque library call in between): not judged
+                    rep.inconclusive('C08.R6', w, 'the tie indicators of the %s lists are traced back to a tie option' % name, got=sorted(origin) or 'no option reaches the tie argument')
+                else:
+                    rep.check(want_t in origin and other_t not in origin, 'C08.R6', w, '%s preference lists are tied with probability %s' % (name, want_t), got=sorted(origin), want=want_t,
+                              construct='%s %s tie source %s' % (cls, name, sorted(o for o in origin if o.startswith('ties'))))
                 rep.check(k == len(roles), 'C08.R2', w, 'the preference list is the last field of a %s line' % name, got='field %d of %d' % (k, len(roles)), construct='%s %s list position' % (cls, name))
                 from ..writerfacts import list_alt_problems
                 for prob in list_alt_problems(fld):
